@@ -1,6 +1,6 @@
 (* C01 panic-site ledger (HAND-MAINTAINED).  One entry per key of Gen/Sites.v:
      Guard P pf     the value that reaches the unwrap satisfies the constructor's condition: pf proves the guard lemma P
-     ConstArg P pf  the arguments are literals; pf evaluates the constructor model on them
+     ConstArg P pf  the arguments are literals; pf evaluates the constructor model on them (now decided by computation, see site_auto)
      Reviewed why   read and argued informally - NOT PROVED; counted as such in the evidence
      Known class    the site IS reachable: registered finding in /verif/known_findings.txt
    A site of Gen/Sites.v that has no entry here (new code, or an edited statement: the key contains the
@@ -27,7 +27,7 @@ Definition site_eqb (a b : site) : bool :=
   String.eqb (s_text a) (s_text b) && Nat.eqb (s_ord a) (s_ord b).
 
 Definition ledger : list (site * lclass) := [
-  (mk_site "parser/converter.rs" "gen_linear_gradient_id" KUnwrap "return NonEmptyString::new(new_id).unwrap()" 0, Reviewed "new_id = format!(prefix + counter) is never the empty string");
+(mk_site "parser/converter.rs" "gen_linear_gradient_id" KUnwrap "return NonEmptyString::new(new_id).unwrap()" 0, Reviewed "new_id = format!(prefix + counter) is never the empty string");
   (mk_site "parser/converter.rs" "gen_radial_gradient_id" KUnwrap "return NonEmptyString::new(new_id).unwrap()" 0, Reviewed "new_id = format!(prefix + counter) is never the empty string");
   (mk_site "parser/converter.rs" "gen_pattern_id" KUnwrap "return NonEmptyString::new(new_id).unwrap()" 0, Reviewed "new_id = format!(prefix + counter) is never the empty string");
   (mk_site "parser/converter.rs" "gen_clip_path_id" KUnwrap "return NonEmptyString::new(new_id).unwrap()" 0, Reviewed "new_id = format!(prefix + counter) is never the empty string");
@@ -35,34 +35,15 @@ Definition ledger : list (site * lclass) := [
   (mk_site "parser/converter.rs" "gen_filter_id" KUnwrap "return NonEmptyString::new(new_id).unwrap()" 0, Reviewed "new_id = format!(prefix + counter) is never the empty string");
   (mk_site "parser/converter.rs" "gen_image_id" KUnwrap "return NonEmptyString::new(new_id).unwrap()" 0, Reviewed "new_id = format!(prefix + counter) is never the empty string");
   (mk_site "parser/converter.rs" "resolve_length" KDebugAssert "debug_assert!( !matches!(aid, AId::BaselineShift | AId::FontSize), ""{} cannot be resolved via this function"", aid )" 0, Reviewed "resolve_length is called with literal AIds only, none of them BaselineShift / FontSize");
-  (mk_site "parser/converter.rs" "resolve_svg_size" KUnwrap "view_box: NonZeroRect::from_xywh(0.0, 0.0, 100.0, 100.0).unwrap()" 0, ConstArg _ const_rects);
-  (mk_site "parser/converter.rs" "convert_group" KUnwrap "let dummy = Rect::from_xywh(0.0, 0.0, 0.0, 0.0).unwrap()" 0, ConstArg _ const_zero_rect);
-  (mk_site "parser/converter.rs" "convert_group" KUnwrap "layer_bounding_box: NonZeroRect::from_xywh(0.0, 0.0, 1.0, 1.0).unwrap()" 0, ConstArg _ const_rects);
-  (mk_site "parser/converter.rs" "convert_group" KUnwrap "abs_layer_bounding_box: NonZeroRect::from_xywh(0.0, 0.0, 1.0, 1.0).unwrap()" 0, ConstArg _ const_rects);
   (mk_site "parser/converter.rs" "convert_path" KDebugAssert "debug_assert!(tiny_skia_path.len() >= 2)" 0, Reviewed "shapes::convert only returns paths built by PathBuilder::finish, which rejects paths with fewer than 2 points; the release build re-checks and returns");
   (mk_site "parser/converter.rs" "svg_paint_order_to_usvg" KIndex "order.order[0]" 0, Reviewed "svgtypes::PaintOrder::order is a fixed array [PaintOrderKind; 3]");
   (mk_site "parser/converter.rs" "svg_paint_order_to_usvg" KIndex "order.order[1]" 0, Reviewed "svgtypes::PaintOrder::order is a fixed array [PaintOrderKind; 3]");
-  (mk_site "parser/filter.rs" "convert" KUnwrap "NonZeroRect::from_xywh(-0.5, -0.5, 2.0, 2.0).unwrap()" 0, ConstArg _ const_rects);
-  (mk_site "parser/filter.rs" "convert" KUnwrap "_ => NonZeroRect::from_xywh(-0.1, -0.1, 1.2, 1.2).unwrap()" 0, ConstArg _ const_rects);
   (mk_site "parser/filter.rs" "find_filter_with_primitives" KUnwrap "link.tag_name().unwrap()" 0, Reviewed "the node comes from doc.links (element_by_id) or from HrefIter, which hold elements only; an element has a tag name");
-  (mk_site "parser/filter.rs" "collect_children" KUnwrap "Size::from_wh(1.0, 1.0).unwrap()" 0, ConstArg _ const_rects);
-  (mk_site "parser/filter.rs" "convert_color_matrix_kind" KIndex "list[0]" 0, Reviewed "guarded by `!list.is_empty()` / `list.len() == 2` / `list.len() == 1` in the enclosing if");
   (mk_site "parser/filter.rs" "convert_color_matrix_kind" KUnwrap "PositiveF32::new(n).unwrap()" 0, Guard _ bound01_positive);
-  (mk_site "parser/filter.rs" "convert_color_matrix_kind" KUnwrap "PositiveF32::new(1.0).unwrap()" 0, ConstArg _ const_rects);
-  (mk_site "parser/filter.rs" "convert_color_matrix_kind" KIndex "list[0]" 1, Reviewed "guarded by `!list.is_empty()` / `list.len() == 2` / `list.len() == 1` in the enclosing if");
   (mk_site "parser/filter.rs" "convert_component_transfer" KUnwrap "match child.tag_name().unwrap()" 0, Reviewed "children are filtered with is_element()");
   (mk_site "parser/filter.rs" "convert_convolve_matrix" KUnwrap "divisor: NonZeroF32::new(divisor).unwrap()" 0, Reviewed "NonZeroF32::new rejects exactly approx_eq_ulps(0, 4); the same test returned None a few lines above and divisor is unchanged");
-  (mk_site "parser/filter.rs" "convert_light_source" KUnwrap "|| PositiveF32::new(1.0).unwrap()" 0, ConstArg _ const_rects);
   (mk_site "parser/filter.rs" "convert_morphology" KUnwrap "let mut radius_x = PositiveF32::new(scale.width()).unwrap()" 0, Guard _ size_components_positive);
   (mk_site "parser/filter.rs" "convert_morphology" KUnwrap "let mut radius_y = PositiveF32::new(scale.height()).unwrap()" 0, Guard _ size_components_positive);
-  (mk_site "parser/filter.rs" "convert_morphology" KIndex "list[0]" 0, Reviewed "guarded by `!list.is_empty()` / `list.len() == 2` / `list.len() == 1` in the enclosing if");
-  (mk_site "parser/filter.rs" "convert_morphology" KIndex "list[1]" 0, Reviewed "guarded by `!list.is_empty()` / `list.len() == 2` / `list.len() == 1` in the enclosing if");
-  (mk_site "parser/filter.rs" "convert_morphology" KIndex "list[0]" 1, Reviewed "guarded by `!list.is_empty()` / `list.len() == 2` / `list.len() == 1` in the enclosing if");
-  (mk_site "parser/filter.rs" "convert_morphology" KIndex "list[0]" 2, Reviewed "guarded by `!list.is_empty()` / `list.len() == 2` / `list.len() == 1` in the enclosing if");
-  (mk_site "parser/filter.rs" "convert_turbulence" KIndex "list[0]" 0, Reviewed "guarded by `!list.is_empty()` / `list.len() == 2` / `list.len() == 1` in the enclosing if");
-  (mk_site "parser/filter.rs" "convert_turbulence" KIndex "list[1]" 0, Reviewed "guarded by `!list.is_empty()` / `list.len() == 2` / `list.len() == 1` in the enclosing if");
-  (mk_site "parser/filter.rs" "convert_turbulence" KIndex "list[0]" 1, Reviewed "guarded by `!list.is_empty()` / `list.len() == 2` / `list.len() == 1` in the enclosing if");
-  (mk_site "parser/filter.rs" "convert_turbulence" KIndex "list[0]" 2, Reviewed "guarded by `!list.is_empty()` / `list.len() == 2` / `list.len() == 1` in the enclosing if");
   (mk_site "parser/image.rs" "convert_inner" KUnwrap "let mut path = Path::new_simple(Arc::new(tiny_skia_path::PathBuilder::from_rect( rect.to_rect(), ))) .unwrap()" 0, Reviewed "PathBuilder::from_rect of a NonZeroRect always yields a non-empty path with a valid bounding box");
   (mk_site "parser/marker.rs" "draw_markers" KIndex "path[i]" 0, Reviewed "`while i < total` with total = path.len() - 1; path is non-empty (tiny_skia_path::Path has at least 2 segments)");
   (mk_site "parser/marker.rs" "calc_vertex_angle" KDebugAssert "debug_assert!(path.len() > 1)" 0, Reviewed "the segment list is built from a tiny_skia_path::Path, which holds at least a MoveTo and one more segment");
@@ -76,7 +57,6 @@ Definition ledger : list (site * lclass) := [
   (mk_site "parser/mod.rs" "f32_bound" KDebugAssert "debug_assert!(min.is_finite())" 0, Reviewed "min / max are literals (0, 1 or 1, 128) at all three call sites");
   (mk_site "parser/mod.rs" "f32_bound" KDebugAssert "debug_assert!(val.is_finite())" 0, Reviewed "callers pass finite values: feColorMatrix `values` come from FromValue for Vec<f32>, which rejects numbers that overflow f32 (fix 8d835b3); specularExponent was range-checked to 1..=128 just before; the stop offset no longer goes through f32_bound (fix 8613502)");
   (mk_site "parser/mod.rs" "f32_bound" KDebugAssert "debug_assert!(max.is_finite())" 0, Reviewed "min / max are literals (0, 1 or 1, 128) at all three call sites");
-  (mk_site "parser/options.rs" "default" KUnwrap "default_size: Size::from_wh(100.0, 100.0).unwrap()" 0, ConstArg _ const_rects);
   (mk_site "parser/paint_server.rs" "convert" KUnwrap "let paint = match node.tag_name().unwrap()" 0, Reviewed "the node comes from doc.links (element_by_id) or from HrefIter, which hold elements only; an element has a tag name");
   (mk_site "parser/paint_server.rs" "convert" KUnreachable "_ => unreachable!()" 0, Reviewed "the caller (style::convert_paint) checked tag_name.is_paint_server(): the three arms are exhaustive");
   (mk_site "parser/paint_server.rs" "convert_radial" KUnwrap "let stop = stops.last().unwrap()" 0, Reviewed "stops.len() >= 2 was checked before (fewer stops return stops_to_color)");
@@ -98,8 +78,6 @@ Definition ledger : list (site * lclass) := [
   (mk_site "parser/paint_server.rs" "convert_stops" KIndex "stops[i - 1]" 1, Reviewed "loop bounds: `while i < stops.len() - 2` under `stops.len() >= 3`, `while i < stops.len() - 1` under `stops.len() >= 2`, `i` from 1 `while i < stops.len()`, `i - 2` under `i >= 2`");
   (mk_site "parser/paint_server.rs" "convert_stops" KIndex "stops[i - 0]" 1, Reviewed "loop bounds: `while i < stops.len() - 2` under `stops.len() >= 3`, `while i < stops.len() - 1` under `stops.len() >= 2`, `i` from 1 `while i < stops.len()`, `i - 2` under `i >= 2`");
   (mk_site "parser/paint_server.rs" "resolve_attr" KUnwrap "match node.tag_name().unwrap()" 0, Reviewed "the node comes from doc.links (element_by_id) or from HrefIter, which hold elements only; an element has a tag name");
-  (mk_site "parser/paint_server.rs" "stops_to_color" KIndex "stops[0]" 0, Reviewed "second match arm: stops.len() == 1 (empty was handled by the first arm)");
-  (mk_site "parser/paint_server.rs" "stops_to_color" KIndex "stops[0]" 1, Reviewed "second match arm: stops.len() == 1 (empty was handled by the first arm)");
   (mk_site "parser/style.rs" "convert_paint" KUnwrap "let tag_name = link.tag_name().unwrap()" 0, Reviewed "the node comes from doc.links (element_by_id) or from HrefIter, which hold elements only; an element has a tag name");
   (mk_site "parser/svgtree/mod.rs" "root" KIndex "self.nodes[0]" 0, Reviewed "nodes[0] is pushed by parse() before anything else");
   (mk_site "parser/svgtree/mod.rs" "root_element" KUnwrap "self.root().first_element_child().unwrap()" 0, Reviewed "parse() returns Err(NoRootNode) unless the root has an `svg` element child");
@@ -133,10 +111,7 @@ Definition ledger : list (site * lclass) := [
   (mk_site "parser/svgtree/text.rs" "remove_first_space" KUnwrap "self.chars().next().unwrap()" 0, Reviewed "callers test the first / last byte for b' ' before calling");
   (mk_site "parser/svgtree/text.rs" "remove_last_space" KDebugAssert "debug_assert_eq!(self.chars().next_back().unwrap(), ' ')" 0, Reviewed "callers test the first / last byte for b' ' before calling");
   (mk_site "parser/svgtree/text.rs" "remove_last_space" KUnwrap "self.chars().next_back().unwrap()" 0, Reviewed "callers test the first / last byte for b' ' before calling");
-  (mk_site "parser/svgtree/text.rs" "trim_text_nodes" KIndex "nodes[0]" 0, Reviewed "inside `if nodes.len() == 1`");
   (mk_site "parser/svgtree/text.rs" "trim_text_nodes" KIndex "doc.nodes[node_id.get_usize()]" 0, Reviewed "node ids collected from doc.descendants() of the same document");
-  (mk_site "parser/svgtree/text.rs" "trim_text_nodes" KIndex "text.as_bytes()[0]" 0, Reviewed "guarded by `text.len() > 0` / non-empty checks of the enclosing branch");
-  (mk_site "parser/svgtree/text.rs" "trim_text_nodes" KIndex "text.as_bytes()[0]" 1, Reviewed "guarded by `text.len() > 0` / non-empty checks of the enclosing branch");
   (mk_site "parser/svgtree/text.rs" "trim_text_nodes" KIndex "text.as_bytes()[text.len() - 1]" 0, Reviewed "guarded by `text.len() > 0` / non-empty checks of the enclosing branch");
   (mk_site "parser/svgtree/text.rs" "trim_text_nodes" KIndex "nodes[i]" 0, Reviewed "`while i < len` with len = nodes.len() - 1 under nodes.len() > 1");
   (mk_site "parser/svgtree/text.rs" "trim_text_nodes" KIndex "nodes[i + 1]" 0, Reviewed "`while i < len` with len = nodes.len() - 1 under nodes.len() > 1");
@@ -149,7 +124,6 @@ Definition ledger : list (site * lclass) := [
   (mk_site "parser/svgtree/text.rs" "trim_text_nodes" KIndex "doc.nodes[node2_id.get_usize()]" 2, Reviewed "node ids collected from doc.descendants() of the same document");
   (mk_site "parser/svgtree/text.rs" "trim_text_nodes" KIndex "doc.nodes[node1_id.get_usize()]" 2, Reviewed "node ids collected from doc.descendants() of the same document");
   (mk_site "parser/switch.rs" "is_valid_sys_lang" KIndex "lang[..idx]" 0, Reviewed "idx = position of an ASCII '-' in the same string: a char boundary within bounds");
-  (mk_site "parser/text.rs" "convert" KUnwrap "let dummy = Rect::from_xywh(0.0, 0.0, 0.0, 0.0).unwrap()" 0, ConstArg _ const_zero_rect);
   (mk_site "parser/text.rs" "collect_text_chunks_impl" KUnwrap "dominant_baseline = parent .parent_element() .unwrap()" 0, Reviewed "parent is a tspan / textPath / text element below `text`; `text` itself has the root svg as parent element");
   (mk_site "parser/text.rs" "collect_text_chunks_impl" KIndex "pos_list[iter_state.chars_count]" 0, Reviewed "pos_list has one entry per character of the text element (resolve_positions_list allocates count_chars(text)); chars_count counts the same characters");
   (mk_site "parser/text.rs" "collect_text_chunks_impl" KIndex "pos_list[iter_state.chars_count]" 1, Reviewed "pos_list has one entry per character of the text element (resolve_positions_list allocates count_chars(text)); chars_count counts the same characters");
@@ -166,15 +140,35 @@ Definition ledger : list (site * lclass) := [
   (mk_site "tree/filter.rs" "get" KIndex "self.data[(y * self.columns + x) as usize]" 0, Reviewed "ConvolveMatrixData::new checks columns * rows == data.len(); get(x, y) is called with x < columns, y < rows by resvg");
   (mk_site "tree/mod.rs" "new" KDebugAssert "debug_assert!(n.is_finite())" 0, Reviewed "callers: style::resolve_stroke after replacing non-finite values by 4 and values < 1 by 1 (fix bc08eef), and Default with the literal 4.0");
   (mk_site "tree/mod.rs" "new" KDebugAssert "debug_assert!(n >= 1.0)" 0, Reviewed "callers: style::resolve_stroke after replacing non-finite values by 4 and values < 1 by 1 (fix bc08eef), and Default with the literal 4.0");
-  (mk_site "tree/mod.rs" "empty" KUnwrap "let dummy = Rect::from_xywh(0.0, 0.0, 0.0, 0.0).unwrap()" 0, ConstArg _ const_zero_rect);
-  (mk_site "tree/mod.rs" "empty" KUnwrap "layer_bounding_box: NonZeroRect::from_xywh(0.0, 0.0, 1.0, 1.0).unwrap()" 0, ConstArg _ const_rects);
-  (mk_site "tree/mod.rs" "empty" KUnwrap "abs_layer_bounding_box: NonZeroRect::from_xywh(0.0, 0.0, 1.0, 1.0).unwrap()" 0, ConstArg _ const_rects);
   (mk_site "tree/mod.rs" "bounding_box" KUnwrap "self.size.to_rect(0.0, 0.0).unwrap()" 0, Reviewed "self.size is a Size (finite, > 0): to_rect(0, 0) = Rect::from_xywh(0, 0, w, h) is valid")
 ].
 
-Definition site_discharged (s : site) : bool := existsb (fun e => site_eqb s (fst e)) ledger.
+(* sites decided by computation from the facts tools/gen_sites.py reads next to them (Gen/Sites.v `site_auto`):
+   a literal index below a length established by the enclosing condition, or a validated constructor applied to
+   literals, evaluated in the xq model *)
+Local Open Scope Q_scope.
+Definition ctor_ok (c : ctor) (args : list Q) : bool :=
+  match c, args with
+  | CNzRectXywh, [x; y; w; h] => x_nz_xywh (XFin x) (XFin y) (XFin w) (XFin h)
+  | CRectXywh, [x; y; w; h] => x_rect_xywh (XFin x) (XFin y) (XFin w) (XFin h)
+  | CSize, [w; h] => x_size (XFin w) (XFin h)
+  | CPositive, [x] => x_positive (XFin x)
+  | _, _ => false
+  end.
+Definition auto_ok (a : auto) : bool :=
+  match a with
+  | AIndex k n => Nat.ltb k n
+  | ACtor c args => ctor_ok c args
+  end.
+Definition site_auto_ok (s : site) : bool := existsb (fun e => site_eqb s (fst e) && auto_ok (snd e)) site_auto.
+Definition is_index (a : auto) : bool := match a with AIndex _ _ => true | _ => false end.
+Definition count_auto_index : nat := length (filter (fun e => is_index (snd e) && auto_ok (snd e)) site_auto).
+Definition count_auto_ctor : nat := length (filter (fun e => negb (is_index (snd e)) && auto_ok (snd e)) site_auto).
+
+Definition site_discharged (s : site) : bool := site_auto_ok s || existsb (fun e => site_eqb s (fst e)) ledger.
 (* and the ledger carries no stale entry *)
-Definition entry_live (e : site * lclass) : bool := existsb (site_eqb (fst e)) parser_sites.
+(* ... nor one for a site that is decided by computation *)
+Definition entry_live (e : site * lclass) : bool := existsb (site_eqb (fst e)) parser_sites && negb (site_auto_ok (fst e)).
 
 Lemma sites_discharged : forallb site_discharged parser_sites = true.
 Proof. vm_compute. reflexivity. Qed.
